@@ -127,6 +127,16 @@ T["torch.ones"] = _creation(z3.RealVal(1))
 T["torch.empty"] = _creation(z3.RealVal(0))
 
 
+@op("torch.full")
+def _full(it, ctx, a, k):
+    """torch.full(size, fill_value)"""
+    size = a[0] if a else k["size"]
+    fv = a[1] if len(a) > 1 else k["fill_value"]
+    sizes = E._shape_args(it, ctx, [size])
+    term = E.to_real(fv.t) if isinstance(fv, VNum) else as_tensor(fv).elem([])
+    return E.full([Dim([s_]) for s_ in sizes], term)
+
+
 @op("torch.zeros_like")
 def _zeros_like(it, ctx, a, k):
     return E.full(list(a[0].dims), z3.RealVal(0) if a[0].sort == "real" else z3.IntVal(0))
